@@ -47,6 +47,12 @@ contract Second {
     }
 }
 
+/* ── 注意 ── 以下の構造体は並べ替えで一スロット節約できます ── ✦✦✦✦✦✦✦✦ */
+struct LooseAfter { uint128 lo; uint256 mid; uint128 hi; }
+struct TightAfter { uint128 lo; uint128 hi; uint256 mid; }
+contract PackedAfter { uint128 a; uint256 b; uint128 c; }
+contract OptimalAfter { uint128 a; uint128 c; uint256 b; }
+
 // 最後 — конец
 function freeHalf(uint256 a, uint256 b) pure returns (uint256) {
     return a / 2 * b;
